@@ -71,6 +71,15 @@ class LamV(Val):
 
 
 @dataclass(frozen=True)
+class PartV(Val):
+    """functools.partial(f, *args, **kwargs) and the operator getters (kind 'attrgetter' | 'itemgetter' | 'methodcaller')"""
+    kind: str
+    func: Any = None
+    args: Tuple[Any, ...] = ()
+    kwargs: Tuple[Tuple[str, Any], ...] = ()
+
+
+@dataclass(frozen=True)
 class GenV(Val):
     """A generator expression bound to a local name and not consumed yet (it is run when iterated / passed to next())."""
     key: int                                    # id of the ast.GeneratorExp node (resolved through Interp.genexps)
